@@ -63,6 +63,9 @@ func Features(c *world.Case) map[string]bool {
 	if c.Config.MachineCombiners {
 		f["machine-combiners"] = true
 	}
+	if c.Config.Cgo {
+		f["cgo-zstd"] = true
+	}
 	var walk func(steps []world.Step)
 	walk = func(steps []world.Step) {
 		for _, st := range steps {
